@@ -142,7 +142,11 @@ fn evaluate_do_block_expr(
         // Set lambda name if assigning a lambda
         if let Value::Lambda(lambda_ptr) = val {
             let mut borrowed_heap = heap.borrow_mut();
-            if let Some(HeapValue::Lambda(lambda_def)) = borrowed_heap.get_mut(lambda_ptr.index()) {
+            if let Some(HeapValue::Lambda(lambda_def)) = borrowed_heap.get_mut(lambda_ptr.index())
+                && lambda_def.name.is_none()
+            {
+                // Only the first binding names a function: giving it a second name later
+                // (`g = f`) must not change how f behaves
                 lambda_def.name = Some(ident.clone());
             }
         }
@@ -416,7 +420,10 @@ pub fn evaluate_ast(
                 let mut borrowed_heap = heap.borrow_mut();
                 if let Some(HeapValue::Lambda(lambda_def)) =
                     borrowed_heap.get_mut(lambda_ptr.index())
+                    && lambda_def.name.is_none()
                 {
+                    // Only the first binding names a function: giving it a second name
+                    // later (`g = f`) must not change how f behaves
                     lambda_def.name = Some(ident.clone());
                 }
             }
